@@ -13,6 +13,7 @@
 //!                                            hold: keeps the cleaner until a stdin line arrives, then drops it (= removes the token)
 //!                                            abandon: relinquish (token stays)
 //! lifecycle ls <cfg>                       files below the root of <cfg>, one per line with mode
+//! lifecycle svc-create|svc-open|svc-recreate|svc-exists <cfg> <name> …   service-level victims / survivors (C04 service part): see svc.rs
 //!
 //! <cfg> is an iceoryx2 toml config; it is installed as the GLOBAL config of the process (so that the
 //! clean-up's fall-back to the global config when the node details are unreadable stays in the domain).
@@ -29,7 +30,9 @@ use iceoryx2_cal::monitoring::{Monitoring, MonitoringBuilder, MonitoringCleaner,
 use iceoryx2_cal::named_concept::{NamedConceptBuilder, NamedConceptConfiguration};
 use std::io::{BufRead, Write};
 
-fn out(s: &str) {
+mod svc;
+
+pub(crate) fn out(s: &str) {
     let mut o = std::io::stdout();
     let _ = writeln!(o, "{s}");
     let _ = o.flush();
@@ -224,8 +227,11 @@ fn main() {
             }
         }
         c => {
-            eprintln!("unknown command {c}");
-            std::process::exit(2);
+            // service-level commands of the C04 service part (svc.rs)
+            if !svc::run(c, &args, config) {
+                eprintln!("unknown command {c}");
+                std::process::exit(2);
+            }
         }
     }
 }
@@ -233,6 +239,6 @@ fn main() {
 unsafe extern "C" {
     fn _exit(code: i32) -> !;
 }
-unsafe fn libc_exit() -> ! {
+pub(crate) unsafe fn libc_exit() -> ! {
     unsafe { _exit(0) }
 }
